@@ -68,7 +68,7 @@ impl Prop for C07 {
     type Input = Input;
 
     fn budget(tier: Tier) -> u64 {
-        tier.pick(150_000, 4_000_000)
+        tier.pick(400_000, 4_000_000)
     }
 
     fn strategy(tier: Tier) -> BoxedStrategy<Case> {
